@@ -266,6 +266,8 @@ class Check:
         d["evaluations"] = res.get("evaluations", 0)
         self.cov["parts"][name] = d
         for v in res.get("violations", []):
+            if isinstance(v.get("replay"), dict) and v["replay"].get("kind") == "tool":
+                raise ToolError("%s: %s" % (name, v.get("what")))
             self.violation("%s: %s" % (name, v.get("what")), v.get("replay"))
 
     def violation(self, what, replay_obj):
